@@ -298,7 +298,13 @@ func buildSuper(r *rand.Rand, s superSpec) []byte {
 		co = 16
 		binary.BigEndian.PutUint32(th[4:], s.seq)
 		binary.BigEndian.PutUint32(th[8:], r.Uint32())
-		th[12] = byte(s.thl/4)<<4 | byte(r.Intn(2)) // data offset + a reserved bit now and then
+		// data offset + the low nibble of byte 12 (AE/NS and the three reserved bits): mostly clear or
+		// AE alone, one in four any value -- the header length is the HIGH nibble only
+		resv := byte(r.Intn(2))
+		if r.Intn(4) == 0 {
+			resv = byte(r.Intn(16))
+		}
+		th[12] = byte(s.thl/4)<<4 | resv
 		th[13] = s.flags
 		binary.BigEndian.PutUint16(th[14:], uint16(r.Intn(65536)))
 		binary.BigEndian.PutUint16(th[18:], uint16(r.Intn(3)*r.Intn(65536)))
